@@ -239,3 +239,14 @@ M("C20", "C20.guard", _RD, "            except cls.DigestMismatchError:\n       
 M("C20", "C20.layout", _RD, "            cachedOptionsDigest = f.read(8)\n            if len(cachedOptionsDigest) != 8:", "            cachedOptionsDigest = f.read(4)\n            if len(cachedOptionsDigest) != 4:", "c20-options-digest-size")
 M("C20", "C20.layout", _RD, "            f.write(digest)  # digest of original map file\n            f.write(optionsDigest)  # digest of map options", "            f.write(optionsDigest)  # digest of map options\n            f.write(digest)  # digest of original map file", "c20-fields-swapped")
 M("C20", "C20.reconnect", _RD, "        for elem in itertools.chain(self.lanes, self.intersections):\n            for maneuver in elem.maneuvers:\n                reconnect(maneuver)", "        for elem in self.intersections:\n            for maneuver in elem.maneuvers:\n                reconnect(maneuver)", "c20-lane-maneuvers-not-reconnected")
+
+# --- set-algebra formulas (truth tables) -----------------------------------------------------------------------------
+_DIFF_CP = "    def containsPoint(self, point):\n        return self.footprint.regionA.containsPoint(\n            point\n        ) and not self.footprint.regionB.containsPoint(point)"
+M("C16", "C16.algebra", _R, _DIFF_CP, "    def containsPoint(self, point):\n        return self.footprint.regionA.containsPoint(\n            point\n        ) or not self.footprint.regionB.containsPoint(point)", "c16-difference-or")
+M("C16", "C16.algebra", _R, "        return any(region.containsPoint(point) for region in self.footprint.regions)", "        return all(region.containsPoint(point) for region in self.footprint.regions)", "c16-union-all")
+RF("C16", _R, _DIFF_CP, "    def containsPoint(self, point):\n        inA = self.footprint.regionA.containsPoint(point)\n        if not inA:\n            return False\n        if self.footprint.regionB.containsPoint(point):\n            return False\n        return True", "c16-rf-difference-early-returns")
+RF("C16", _R, _DIFF_CP, "    def containsPoint(self, point):\n        return not (\n            not self.footprint.regionA.containsPoint(point)\n            or self.footprint.regionB.containsPoint(point)\n        )", "c16-rf-difference-demorgan")
+M("C02", "C02.pred.algebra", _R, "        ) and not self.footprint.regionB.intersects(obj.occupiedSpace)", "        ) and not self.footprint.regionB.containsObject(obj)", "c02-difference-partial-overlap")
+# --- agreement with the CPython grammar ---------------------------------------------------------------------------------
+_G = "src/scenic/syntax/scenic.gram"
+M("C09", "C09.reference", _G, "    | a=param_no_default+ b=param_with_default* c=[star_etc] {\n        self.make_arguments(None, [], a, b, c)\n", "    | a=param_no_default+ b=param_with_default* c=[star_etc] {\n        self.make_arguments(None, a, [], b, c)\n", "c09-params-posonly-slot")
